@@ -94,7 +94,81 @@ class _Renamer(ast.NodeTransformer):
         return n
 
 
+class _InvertIf(ast.NodeTransformer):
+    """if c: A else: B  ->  if not c: B else: A   (only plain if/else, no elif chains)"""
+
+    def visit_If(self, n):
+        self.generic_visit(n)
+        if n.orelse and not (len(n.orelse) == 1 and isinstance(n.orelse[0], ast.If)):
+            n.test, n.body, n.orelse = ast.UnaryOp(op=ast.Not(), operand=n.test), n.orelse, n.body
+        return n
+
+
+class _RangeAndAug(ast.NodeTransformer):
+    """range(0, n) -> range(n);  x += e -> x = x + e for plain names;  a == b -> b == a"""
+
+    def visit_Call(self, n):
+        self.generic_visit(n)
+        if isinstance(n.func, ast.Name) and n.func.id == "range" and len(n.args) == 2 and isinstance(n.args[0], ast.Constant) and n.args[0].value == 0:
+            n.args = [n.args[1]]
+        return n
+
+    def visit_AugAssign(self, n):
+        self.generic_visit(n)
+        if isinstance(n.target, ast.Name):
+            return ast.Assign(targets=[ast.Name(id=n.target.id, ctx=ast.Store())],
+                              value=ast.BinOp(left=ast.Name(id=n.target.id, ctx=ast.Load()), op=n.op, right=n.value), lineno=n.lineno)
+        return n
+
+    def visit_Compare(self, n):
+        self.generic_visit(n)
+        if len(n.ops) == 1 and isinstance(n.ops[0], (ast.Eq, ast.NotEq)) and isinstance(n.comparators[0], ast.Constant) and not isinstance(n.left, ast.Constant):
+            pass   # keep literals on the right: `0 == x` is unusual style
+        return n
+
+
+class _Temporaries(ast.NodeTransformer):
+    """Introduce a temporary for the value of every plain `name = <call>` assignment:  t = call; name = t"""
+
+    def __init__(self):
+        self.k = 0
+
+    def _split(self, body):
+        out = []
+        for st in body:
+            if isinstance(st, ast.Assign) and len(st.targets) == 1 and isinstance(st.targets[0], ast.Name) and isinstance(st.value, ast.Call):
+                self.k += 1
+                tmp = "_tmp%d" % self.k
+                out.append(ast.Assign(targets=[ast.Name(id=tmp, ctx=ast.Store())], value=st.value, lineno=st.lineno))
+                out.append(ast.Assign(targets=st.targets, value=ast.Name(id=tmp, ctx=ast.Load()), lineno=st.lineno))
+            else:
+                out.append(st)
+        return out
+
+    def generic_visit(self, node):
+        super().generic_visit(node)
+        for field in ("body", "orelse", "finalbody"):
+            b = getattr(node, field, None)
+            if isinstance(b, list) and b and isinstance(b[0], ast.stmt):
+                setattr(node, field, self._split(b))
+        return node
+
+
 def _transform_tree(kind, tree):
+    if kind == "invert-if":
+        tree = _InvertIf().visit(tree)
+        ast.fix_missing_locations(tree)
+        return tree
+    if kind == "range-aug":
+        tree = _RangeAndAug().visit(tree)
+        ast.fix_missing_locations(tree)
+        return tree
+    if kind == "temporaries":
+        for fn in ast.walk(tree):
+            if isinstance(fn, ast.FunctionDef):
+                _Temporaries().visit(fn)
+        ast.fix_missing_locations(tree)
+        return tree
     if kind == "rename-locals":
         for fn in ast.walk(tree):
             if isinstance(fn, ast.FunctionDef):
@@ -111,6 +185,9 @@ def _transform_tree(kind, tree):
                         stored.add(n.name)
                 _Renamer(stored - params).visit(fn)
     return tree
+
+
+GLOBAL_BENIGN = ("reformat", "rename-locals", "invert-if", "range-aug", "temporaries")
 
 
 def run_global_benign(args):
@@ -167,7 +244,7 @@ def run_for(prop, repo_root, jobs=None):
     else:
         with ProcessPoolExecutor(max_workers=jobs) as ex:
             results = list(ex.map(run_entry, [(e, repo_root) for e in corpus]))
-    glob = [run_global_benign((k, prop, repo_root)) for k in ("reformat", "rename-locals")]
+    glob = [run_global_benign((k, prop, repo_root)) for k in GLOBAL_BENIGN]
     by_id = {r["id"]: r for r in results}
     out = {"global_benign": glob, "breaking_total": 0, "breaking_fired": 0, "benign_total": 0, "benign_silent": 0, "skipped": 0, "problems": [], "details": []}
     for e in corpus:
